@@ -101,6 +101,21 @@ impl Socket {
         //  early returns inside the loop, so well-formedness is stated for successful reads only)
         r is Ok ==> final(self).wf(),
 //@ end
+
+//@ item sim/elvis-core/src/protocols/socket_api/socket.rs :: impl Socket / fn recv_msg id=Socket.recv_msg
+//@ rewrite `pub async fn recv_msg\(` => `pub fn recv_msg(` ## async dropped (see the unit header)
+//@ rewrite `if self\.session\.read\(\)\.unwrap\(\)\.is_none\(\) \|\| self\.is_listening \{\s*return Err\(SocketError::ReceiveError\);\s*\}\s*yield_now\(\)\.await;` => `` ## session / listening check and yield dropped (outside Verus)
+//@ rewrite `let mut shutdown_receiver = self\.shutdown\.receiver\(\);` => `` ## shutdown subscription dropped
+//@ rewrite `select! \{\s*_ = shutdown_receiver\.recv\(\) => Err\(SocketError::Shutdown\),\s*message = message_receiver\.recv\(\) => \{` => `match vx_recv_blocking(message_receiver) { VxRecv::Shutdown => Err(SocketError::Shutdown), VxRecv::Msg(message) => {` ## tokio select! routed to the assumed-contract function vx_recv_blocking
+//@ rewrite `match message_receiver\.try_recv\(\) \{` => `match vx_try_recv(message_receiver) {` ## Receiver::try_recv routed to the assumed-contract function vx_try_recv
+//@ contract
+    requires old(self).wf(),
+    ensures
+        // (C02) a whole-message read takes exactly the next pending message (the stored remainder first): nothing is lost,
+        //       duplicated or reordered with respect to the byte-bounded reads
+        r matches Ok(m) ==> m.wf() && m@ + final(self).pending() == old(self).pending(),   //# takes_the_head_of_what_was_pending [C02]
+        r is Ok ==> final(self).wf(),
+//@ end
 }
 
 } // verus!
